@@ -19,6 +19,7 @@ int sim_trace_on = 1;
 simfault sim_faults[8]; int sim_nfaults; int sim_fault_fired;
 unsigned long sim_crash_before;
 int sim_threads;
+int sim_gate_close;
 const char *sim_pending_call[SIM_MAXPROC];
 static int world_crashed;
 static void (*sig_handler_tab[SIM_MAXPROC][65])(int);
@@ -223,6 +224,9 @@ static int sim_gate(const char *what, int *err) {
     sim_tr("P%d CRASH before #%d %s\n", p->idx, p->ncalls, what);
     proc_leave(p);
   }
+  /* opt-in fault kind -3 (C12): virtual time jumps ahead before this call, so that a pending alarm fires */
+  for (int i = 0; i < sim_nfaults; i++)
+    if (sim_faults[i].err == -3 && sim_faults[i].proc == p->idx && sim_faults[i].callno == p->ncalls) { sim_fault_fired++; W.clock += 100000; sim_tr("P%d clockjump 100000\n", p->idx); }
   if (p->alarm_at && W.clock >= p->alarm_at) {
     /* SIGALRM: the default action or the program's handler; both modelled as the handler below */
     extern void sim_deliver_alarm(simproc *);
@@ -230,9 +234,10 @@ static int sim_gate(const char *what, int *err) {
     sim_deliver_alarm(p);
   }
   for (int i = 0; i < sim_nfaults; i++)
-    if (sim_faults[i].proc == p->idx && sim_faults[i].callno == p->ncalls) {
+    if (sim_faults[i].proc == p->idx && sim_faults[i].callno == p->ncalls && sim_faults[i].err != -3) {
       sim_fault_fired++;
       if (sim_faults[i].err == -2) { world_crashed = 1; p->crashed = 1; sim_tr("P%d CRASH before #%d %s\n", p->idx, p->ncalls, what); proc_leave(p); }
+      if (sim_faults[i].err == -4) { p->crashed = 1; p->exitcode = 137; sim_tr("P%d KILLED before #%d %s\n", p->idx, p->ncalls, what); proc_leave(p); }
       *err = sim_faults[i].err; return 1;
     }
   return 0;
@@ -441,6 +446,11 @@ int close(int fd) {
   simproc *p = sim_cur; simfd *f = fd_get(fd);
   if (!f) FAIL(EBADF);
   int vis = (f->kind == SFD_FIFO_R || f->kind == SFD_FIFO_W);
+  if (sim_gate_close && f->kind == SFD_FILE && W.ino[f->ino].type == SI_FILE) {
+    /* opt-in (C12): close() of a regular file is a scheduling/fault point; a failing close keeps the descriptor */
+    GATE("close");
+    if (faulted) { sim_tr("P%d #%d close %d -> -1 e%d FAULT\n", p->idx, p->ncalls, fd, ferr == -1 ? EIO : ferr); FAIL(ferr == -1 ? EIO : ferr); }
+  }
   if (vis) { GATE("close_fifo"); (void)faulted; }
   if (f->kind == SFD_FILE || f->kind == SFD_FIFO_R || f->kind == SFD_FIFO_W) {
     siminode *n = &W.ino[f->ino]; n->nopen--;
